@@ -156,7 +156,9 @@ def run(chk):
 
     # ---- R11.3 call-site binding
     callsites(chk, repo, it, ms, md, S, D)
-    chk.floor('R11.1', 4 + 18); chk.floor('R11.2', 8); chk.floor('R11.4', 4); chk.floor('R11.6', 7); chk.floor('R11.3', 4)
+    # ---- R11.7 the loop closed through the real mode summation
+    closed_loop(chk, repo, ms, md, S, D)
+    chk.floor('R11.1', 4 + 18); chk.floor('R11.2', 8); chk.floor('R11.4', 4); chk.floor('R11.6', 7); chk.floor('R11.3', 4); chk.floor('R11.7', 12)
     chk.assume('masses, a, n, C > 0; 0 < e < 1 on the generic region; n^2 a^3 = G(m1+m2)')
 
 
@@ -303,3 +305,91 @@ def tag(v):
     if isinstance(v, X.Node):
         return v.val[0] if v.op == 'atom' else X.show(v)[:60]
     return repr(v)[:40]
+
+
+# ---------------------------------------------------------------------------------------------- R11.7 closed loop
+def closed_loop(chk, repo, ms, md, S, D):
+    """The conservation laws with the potential derivatives and the heating taken from the REAL mode summation
+    (calculate_terms -> collapse_modes, interpreted over the extracted eccentricity / inclination tables, every term kept symbolic),
+    instead of free atoms: energy uses the *returned* heating, angular momentum the *returned* dUdw / dUdO (obliquity-off tables).
+    This is the part of the property that spans modes, dissipation and dynamics."""
+    mm = repo.by_path('TidalPy/tides/modes/mode_manipulation.py')
+    f_terms = mm.defs.get('calculate_terms'); f_coll = mm.defs.get('collapse_modes')
+    if not (isinstance(f_terms, ast.FunctionDef) and isinstance(f_coll, ast.FunctionDef)):
+        raise AnalysisError('mode_manipulation.calculate_terms / collapse_modes vanished')
+    it = Interp(repo, max_depth=10)
+    mh = repo.by_path('TidalPy/tides/modes/mode_calc_helper/__init__.py')
+    elook = it.global_name(mh, 'eccentricity_functions_lookup'); ilook = it.global_name(mh, 'inclination_functions_lookup')
+    a = X.atom('a', 'pos'); n = X.atom('n', 'pos'); e = X.atom('e', 'pos')
+    m = [X.atom('m1', 'pos'), X.atom('m2', 'pos')]
+    C = [X.atom('C1', 'pos'), X.atom('C2', 'pos')]; spins = [X.atom('spin1'), X.atom('spin2')]
+    Rs = [X.atom('R1', 'pos'), X.atom('R2', 'pos')]; Is = [X.atom('I1'), X.atom('I2')]
+    sus = [X.atom('suscept1', 'pos'), X.atom('suscept2', 'pos')]
+    gs = [X.atom('g1', 'pos'), X.atom('g2', 'pos')]; rhos = [X.atom('rho1', 'pos'), X.atom('rho2', 'pos')]
+    mus = [X.atom('mu1', 'pos'), X.atom('mu2', 'pos')]; scales = [X.atom('scale1', 'pos'), X.atom('scale2', 'pos')]
+    one_minus_e2 = 1 - e * e
+    K = 2 if chk.tier == 'quick' else 6
+    d = X.Decider(seed=chk.seed + 11, k=K, positive=[one_minus_e2], mask_hook=eps_mask)
+    G = n * n * a * a * a / (m[0] + m[1])
+    Gat = X.atom('G', 'pos')
+    E_orb = -Gat * m[0] * m[1] / (2 * a)
+    L_orb = m[0] * m[1] / (m[0] + m[1]) * X.sqrt(Gat * (m[0] + m[1]) * a * one_minus_e2)
+    dE_da = X.subst(X.diff(E_orb, 'a'), {'G': G})
+    dL_da = X.subst(X.diff(L_orb, 'a'), {'G': G}); dL_de = X.subst(X.diff(L_orb, 'e'), {'G': G})
+
+    def body(i, N, L, obl, sync, cpl):
+        """mode sum of body i (tide raised by the other body); returns (heating, dUdM, dUdw, dUdO, number of terms)"""
+        ef = elook[N][L]; inf = ilook[obl][L]
+        if not (isinstance(ef, FuncRef) and isinstance(inf, FuncRef)):
+            raise AnalysisError('lookup tables do not hold repo functions')
+        etab = it.call(ef.mod, ef.node, [e]); itab = it.call(inf.mod, inf.node, [Is[i]])
+        sp = n if sync else spins[i]
+        uniq, res = it.call(mm, f_terms, [sp, n, a, Rs[i], etab, itab], {'multiply_modes_by_sign': True})
+        comp = {sig: X.atom(f'J{i}_{sig[0]}_{sig[1]}'.replace('-', 'm'), 'complex') for sig in res}
+        out = it.call(mm, f_coll, [gs[i], Rs[i], rhos[i], mus[i], scales[i], m[1 - i], sus[i], comp, res, L], {'cpl_ctl_method': cpl})
+        nt = sum(len(v) for v in res.values())
+        return out[0], out[1], out[2], out[3], nt, sp
+
+    if chk.tier == 'quick':
+        configs = [(2, 2, True), (2, 3, False), (4, 2, False), (2, 4, True), (6, 3, False), (2, 5, False)]
+    else:
+        configs = [(N, L, ob) for N in (2, 4, 8, 12) for L in (2, 3, 4, 5) for ob in (True, False)] + [(20, 2, False), (2, 7, False), (2, 7, True)]
+    where_e = ms.where(S['semi_major_axis_derivative']); where_s = ms.where(S['spin_rate_derivative'])
+    where_de = md.where(D['semi_major_axis_derivative']); where_dl = md.where(D['eccentricity_derivative'])
+    if all(o.ok for o in chk.obls if o.rule in ('R11.1', 'R11.2')):
+        # the rate formulas conserve energy and angular momentum for arbitrary potential derivatives (R11.1 held), so a failure of the
+        # closed loop lies in what the mode summation returns
+        where_e = where_s = where_de = where_dl = mm.where(f_terms) + ' (calculate_terms/collapse_modes; the rate formulas themselves satisfy R11.1)'
+    for (N, L, obl) in configs:
+        for sync in (False, True):
+            for cpl in ((False, True) if (N, L) == configs[0][:2] else (False,)):
+                cfg = f'N={N} lmax={L} obliquity={"on" if obl else "off"} {"spin is n" if sync else "generic spin"}' + (' CPL/CTL' if cpl else '')
+                h1, dM1, dw1, dO1, nt1, sp1 = body(0, N, L, obl, sync, cpl)
+                da = it.call(ms, S['semi_major_axis_derivative'], [a, n, m[0], dM1, m[1]])
+                de = it.call(ms, S['eccentricity_derivative'], [a, n, e, m[0], dM1, dw1, m[1]])
+                ds = it.call(ms, S['spin_rate_derivative'], [dO1, C[0], m[1]])
+                r = dE_da * da + C[0] * sp1 * ds + h1
+                ok = d.is_zero(r)
+                chk.ob('R11.7', f'single, {cfg}: dE_orb/dt + C spin dspin/dt + (returned tidal heating) == 0 over {nt1} (signature,l) groups', ok,
+                       '' if ok else 'energy is not conserved with the heating and potential derivatives the mode summation returns: ' + d.describe(r, X.ZERO), where_e,
+                       method='GF(p^2) PIT')
+                if not obl:
+                    r = dL_da * da + dL_de * de + C[0] * ds
+                    ok = d.is_zero(r)
+                    chk.ob('R11.7', f'single, {cfg}: dL_orb/dt + C dspin/dt == 0 (zero obliquity)', ok,
+                           '' if ok else 'angular momentum is not conserved with the returned dUdM, dUdw, dUdO: ' + d.describe(r, X.ZERO), where_s, method='GF(p^2) PIT')
+                # dual
+                h2, dM2, dw2, dO2, nt2, sp2 = body(1, N, L, obl, sync, cpl)
+                da2 = it.call(md, D['semi_major_axis_derivative'], [a, n, m[0], dM1, m[1], dM2])
+                de2 = it.call(md, D['eccentricity_derivative'], [a, n, e, m[0], dM1, dw1, m[1], dM2, dw2])
+                ds2 = it.call(ms, S['spin_rate_derivative'], [dO2, C[1], m[0]])
+                r = dE_da * da2 + C[0] * sp1 * ds + C[1] * sp2 * ds2 + h1 + h2
+                ok = d.is_zero(r)
+                chk.ob('R11.7', f'dual, {cfg}: dE_orb/dt + sum C spin dspin/dt + (returned heating of both bodies) == 0', ok,
+                       '' if ok else 'energy is not conserved: ' + d.describe(r, X.ZERO), where_de, method='GF(p^2) PIT')
+                if not obl:
+                    r = dL_da * da2 + dL_de * de2 + C[0] * ds + C[1] * ds2
+                    ok = d.is_zero(r)
+                    chk.ob('R11.7', f'dual, {cfg}: dL_orb/dt + sum C dspin/dt == 0 (zero obliquity)', ok,
+                           '' if ok else 'angular momentum is not conserved: ' + d.describe(r, X.ZERO), where_dl, method='GF(p^2) PIT')
+        chk.note_analysed('mode-sum configurations', f'N={N} lmax={L} obliquity={"on" if obl else "off"}')
